@@ -13,6 +13,25 @@ typedef u16 wide_u8;   typedef u32 wide_u16;  typedef u64 wide_u32;  typedef u12
 #define SPEC_MAX_s(W) ((u##W)(SPEC_MIN_s(W) - 1))
 #define SPEC_MAX_u(W) ((u##W)~(u##W)0)
 
+/* division of 8/16-bit lanes is the truncated division of the values promoted to 32 bits (there is no narrower divider:
+ * C++ integer promotion, and no SIMD integer divide); with the MIN/-1 and zero divisors excluded the quotient fits */
+#define SPEC_SDIV_8(a, b) ((u8)SDIV_u32((u32)(s32)(s8)(a), (u32)(s32)(s8)(b)))
+#define SPEC_SREM_8(a, b) ((u8)SREM_u32((u32)(s32)(s8)(a), (u32)(s32)(s8)(b)))
+#define SPEC_SDIV_16(a, b) ((u16)SDIV_u32((u32)(s32)(s16)(a), (u32)(s32)(s16)(b)))
+#define SPEC_SREM_16(a, b) ((u16)SREM_u32((u32)(s32)(s16)(a), (u32)(s32)(s16)(b)))
+#define SPEC_SDIV_32(a, b) SDIV_u32(a, b)
+#define SPEC_SREM_32(a, b) SREM_u32(a, b)
+#define SPEC_SDIV_64(a, b) SDIV_u64(a, b)
+#define SPEC_SREM_64(a, b) SREM_u64(a, b)
+#define SPEC_UDIV_8(a, b) ((u8)UDIV_u32((u32)(a), (u32)(b)))
+#define SPEC_UREM_8(a, b) ((u8)UREM_u32((u32)(a), (u32)(b)))
+#define SPEC_UDIV_16(a, b) ((u16)UDIV_u32((u32)(a), (u32)(b)))
+#define SPEC_UREM_16(a, b) ((u16)UREM_u32((u32)(a), (u32)(b)))
+#define SPEC_UDIV_32(a, b) UDIV_u32(a, b)
+#define SPEC_UREM_32(a, b) UREM_u32(a, b)
+#define SPEC_UDIV_64(a, b) UDIV_u64(a, b)
+#define SPEC_UREM_64(a, b) UREM_u64(a, b)
+
 /* ---- operations that do not depend on signedness (C01, C07) -------------------------------------- */
 #define SPEC_COMMON(T, W) \
   static inline u##W spec_add_##T(u##W a, u##W b) { return (u##W)(a + b); } \
@@ -43,8 +62,8 @@ typedef u16 wide_u8;   typedef u32 wide_u16;  typedef u64 wide_u32;  typedef u12
   static inline u##W spec_min_##T(u##W a, u##W b) { return (s##W)a < (s##W)b ? a : b; } \
   static inline u##W spec_max_##T(u##W a, u##W b) { return (s##W)a > (s##W)b ? a : b; } \
   static inline u##W spec_sign_##T(u##W a) { return (s##W)a > 0 ? (u##W)1 : (a == 0 ? (u##W)0 : (u##W)~(u##W)0); } \
-  static inline u##W spec_div_##T(u##W a, u##W b) { return SDIV_u##W(a, b); } \
-  static inline u##W spec_mod_##T(u##W a, u##W b) { return SREM_u##W(a, b); } \
+  static inline u##W spec_div_##T(u##W a, u##W b) { return SPEC_SDIV_##W(a, b); } \
+  static inline u##W spec_mod_##T(u##W a, u##W b) { return SPEC_SREM_##W(a, b); } \
   static inline _Bool spec_divpre_##T(u##W a, u##W b) { return b != 0 && !(a == SPEC_MIN_s(W) && b == SPEC_MAX_u(W)); } \
   static inline u##W spec_sadd_##T(u##W a, u##W b) { wide_s##W s = (wide_s##W)(s##W)a + (wide_s##W)(s##W)b; \
     return s > (wide_s##W)(s##W)SPEC_MAX_s(W) ? SPEC_MAX_s(W) : s < (wide_s##W)(s##W)SPEC_MIN_s(W) ? SPEC_MIN_s(W) : (u##W)s; } \
@@ -69,8 +88,8 @@ typedef u16 wide_u8;   typedef u32 wide_u16;  typedef u64 wide_u32;  typedef u12
   static inline u##W spec_min_##T(u##W a, u##W b) { return a < b ? a : b; } \
   static inline u##W spec_max_##T(u##W a, u##W b) { return a > b ? a : b; } \
   static inline u##W spec_sign_##T(u##W a) { return a != 0 ? (u##W)1 : (u##W)0; } \
-  static inline u##W spec_div_##T(u##W a, u##W b) { return UDIV_u##W(a, b); } \
-  static inline u##W spec_mod_##T(u##W a, u##W b) { return UREM_u##W(a, b); } \
+  static inline u##W spec_div_##T(u##W a, u##W b) { return SPEC_UDIV_##W(a, b); } \
+  static inline u##W spec_mod_##T(u##W a, u##W b) { return SPEC_UREM_##W(a, b); } \
   static inline _Bool spec_divpre_##T(u##W a, u##W b) { return b != 0; } \
   static inline u##W spec_sadd_##T(u##W a, u##W b) { wide_u##W s = (wide_u##W)a + (wide_u##W)b; return s > (wide_u##W)SPEC_MAX_u(W) ? SPEC_MAX_u(W) : (u##W)s; } \
   static inline u##W spec_ssub_##T(u##W a, u##W b) { return a < b ? (u##W)0 : (u##W)(a - b); } \
